@@ -46,11 +46,16 @@ def derived_later(ctx, dn):
         H = G.to_directed()
         both, single = c16.dir_model(m, list(G.nodes()), False), c16.dir_model(m, list(G.nodes()), True)
         made.append(("to_directed", H, both if c16.presence_matches(H, both, both.window(1)) else single))
-    c16.grow(ctx, G)
     for name, H, h in made:
         ctx.case["constructor"] = name
+        guarded(ctx, "derived", audit.audit_stream, ctx, dn, H, h, "derived:")
+    c16.grow(ctx, G)
+    for name, H, h in made:
+        ctx.case["constructor"] = name + " (re-inspected after the source was updated)"
         ctx.cell("derived-later:" + name)
-        guarded(ctx, "derived-later", audit.audit_stream, ctx, dn, H, h, "derived-later:")
+        # the log of H must agree with the presence H itself reports NOW (its timelines), whatever happened
+        guarded(ctx, "derived-later", audit.audit_stream, ctx, dn, H, audit.model_from_timelines(H),
+                "derived-later:")
 
 
 def passive_battery(ctx, dn, G, m):
